@@ -85,6 +85,17 @@ def cs_same(s0, s):
                                                             s.elems(Val.r(k0)) == s0.elems(Val.r(k0)))), patterns=[s.f("_children", n)])
 
 
+def tree_frame_steps(s0, s):
+    """T-frame in two steps: prove that the children structure of every allocated node is unchanged, then use that the ghost
+    tree functions read nothing else"""
+    n, m = z3.Ints("tf_n tf_m")
+    return {"prove:children-structure-unchanged": cs_same(s0, s), "tree-frame": z3.And(
+        smt.FA([n, m], z3.Implies(s0.is_node(n), z3.And(SUB(s, n, m) == SUB(s0, n, m), W(s, n, m) == W(s0, n, m))),
+               patterns=[SUB(s, n, m)]),
+        smt.FA([n], z3.Implies(s0.is_node(n), z3.And(TREE(s, n) == TREE(s0, n), H(s, n) == H(s0, n))), patterns=[TREE(s, n)]),
+        smt.FA([n], z3.Implies(s0.is_node(n), H(s, n) == H(s0, n)), patterns=[H(s, n)]))}
+
+
 def tree_frame(s0, s):
     """T-frame: the ghost tree functions read only the children structure of allocated nodes"""
     n, m = z3.Ints("tf_n tf_m")
